@@ -17,6 +17,8 @@ mod p04;
 mod p18;
 mod p09;
 mod p14;
+mod p10;
+mod p20;
 // MODULES (keep this list and the two dispatch tables below in sync)
 
 use std::io::{self, BufRead, Write, BufWriter};
@@ -32,6 +34,8 @@ pub fn dispatch_exec(op: &str, a: &[i64]) -> Option<String> {
   if let Some(r) = p18::exec(op, a) { return r; }
   if let Some(r) = p09::exec(op, a) { return r; }
   if let Some(r) = p14::exec(op, a) { return r; }
+  if let Some(r) = p10::exec(op, a) { return r; }
+  if let Some(r) = p20::exec(op, a) { return r; }
   // DISPATCH-EXEC
   Some("bad-op".to_string())
 }
@@ -48,6 +52,8 @@ pub fn dispatch_enum(name: &str, args: &[String], w: &mut dyn Write) -> bool {
   if p18::run_enum(name, args, w) { return true; }
   if p09::run_enum(name, args, w) { return true; }
   if p14::run_enum(name, args, w) { return true; }
+  if p10::run_enum(name, args, w) { return true; }
+  if p20::run_enum(name, args, w) { return true; }
   // DISPATCH-ENUM
   false
 }
